@@ -56,6 +56,9 @@ NEIGHBOUR_VOCAB = sorted({t for t in mutate.PY_VOCAB if t.strip() and "\n" not i
 FSTRING_FIELD_FORMS = ["f'{x! r}'", "f'{x ! r}'", "f'{x!\\tr}'", "f'''{x!\\nr}'''", "f'{x!r !s}'", "f'{x!}'", "f'{x! }'", "f'{x:{y:{z:{w}}}}'", "f'{x:{y:{z:{w:{v}}}}}'", "f'{a:{b}{c:{d:{e}}}}'", "f'{x:{y:{z:>{w}}}}'", "f'{f'{a:{b:{c:{d}}}}'}'", "f'{x:'}'", 'f"{x:"}"', "f'''{x:'''}'''", "f'{x=!}'", "f'{x=:{y:{z:{w}}}}'"]
 
 
+STRING_CONTINUATIONS = ["x = f'abc\\\\\\\\\ndef'\n", "x = 'abc\\\\\\\\\ndef'\n", "s = 'abc\\\ndef\nghi'\n", "s = f'abc\\\ndef\nghi'\n", "x = b'a\\\\\\\\\nb'\n", "x = r'a\\\\\\\\\nb'\n", "x = 'a\\\n", "x = f'a{b}\\\\\\\\\nc'\n", "x = 'a\\\\\\\\\\\\\\\\\nb'\n", 'y = "a\\\nb\nc"\n', "z = rf'a\\\nb\nc{d}'\n", "x = 'a\\\r\nb\r\nc'\r\n"]
+
+
 def in_python_lexicon(src: str) -> bool:
     return NOT_PY.search(src) is None and "\x00" not in src and "﻿" not in src
 
@@ -208,6 +211,11 @@ def search(rec, ctx):
         check(rec, {"src": src, "stream": "fstring-mutation", "near": True})
 
     drive(st.randoms(use_true_random=False), fmut, ctx.budget(8000, 150000), ctx.hseed("fmut"))
+
+    # a single-quoted literal goes on only after an unescaped backslash, and only for that one line
+    for src in ctx.shard(STRING_CONTINUATIONS):
+        for tmpl in ("{S}", "if a:\n    {S}", "f(1)\n{S}y = 2\n"):
+            check(rec, {"src": tmpl.replace("{S}", src if tmpl == "{S}" else src.replace("\n", "\n" + ("    " if tmpl.startswith("if") else ""), 0)), "stream": "string-continuation", "near": True})
 
     # field forms at the edge of what CPython takes: blanks around '!', spec nesting depth, quotes inside specs
     for src in ctx.shard(FSTRING_FIELD_FORMS):
